@@ -312,9 +312,12 @@ def shrink(pid, stream, finding, workdir, seed):
     kind of finding persists (harness re-observes, driver re-judges).  Returns the smallest case line."""
     field = stream.get('shrink_field')
     line = finding.case_line
-    if not field or not line:
+    if not field or not line or len(line) > 4000000:
         return line
+    t_end = time.time() + stream.get('shrink_seconds', 150)
     for _ in range(15):
+        if time.time() > t_end:
+            return line
         try:
             sx = parse_sx(line)
         except Exception:
@@ -335,7 +338,7 @@ def shrink(pid, stream, finding, workdir, seed):
                     if sp not in seen and sp[1] - sp[0] < n:
                         seen.add(sp)
                         spans.append(sp)
-        cand = [items[:x] + items[y:] for (x, y) in spans][:600]
+        cand = [items[:x] + items[y:] for (x, y) in spans[:600]]
         rp = os.path.join(workdir, 'shrink-replay.txt')
         with open(rp, 'w') as f:
             for k, it in enumerate(cand):
